@@ -61,6 +61,10 @@ FIELD_INFO = {
     "num":   {"att": "num", "name": "num", "keys": ["num"], "type": "anynum"},
     "nkind": {"att": "nkind", "name": "nkind", "keys": ["nkind"], "type": "str"},
     "tt":    {"att": "tt", "name": "tt", "keys": ["tt"], "type": "int"},
+    "ratio": {"att": "ratio", "name": "ratio", "keys": ["ratio"], "type": "int"},
+    "dbl":   {"att": "dbl", "name": "dbl", "keys": ["dbl"], "type": "posint"},
+    "tb":    {"att": "tb", "name": "tb", "keys": ["tb"], "type": "int"},
+    "td":    {"att": "td", "name": "td", "keys": ["td"], "type": "int"},
 }
 ORDER = ["req", "opt", "its", "pos", "fin", "ali", "hid", "lf", "mreq", "exo", "total", "w", "num"]
 
@@ -112,6 +116,18 @@ def source(plan):
     if "total" in fs and plan.get("tt"):
         # a property that depends on a property: a change of req / pos has to reach it through total
         L += ["    @property", "    @Field(dependencies=['total'])", "    def tt(self) -> int:", "        return self.total + 1000"]
+    if "pos" in fs and plan.get("ratio"):
+        # a getter that cannot be computed for every valid value of its field (pos = 0)
+        L += ["    @property", "    @Field(dependencies=['pos'])", "    def ratio(self) -> int:", "        return 100 // self.pos"]
+    if plan.get("dbl"):
+        # a property whose declared output type rejects what some valid values of its field give (req < 0)
+        L.insert(2, "from utype import Rule")
+        L.insert(3, "class PosI(int, Rule):\n    ge = 0\n")
+        L += ["    @property", "    @Field(dependencies=['req'])", "    def dbl(self) -> PosI:", "        return self.req * 2"]
+    if "total" in fs and plan.get("diamond"):
+        # a diamond: req -> total, req -> tb, and td depends on both: it has to be computed after both
+        L += ["    @property", "    @Field(dependencies=['req'])", "    def tb(self) -> int:", "        return self.req + 1",
+              "    @property", "    @Field(dependencies=['total', 'tb'])", "    def td(self) -> int:", "        return self.total * 100 + self.tb"]
     if "hid" in fs and plan["base"] == "schema" and plan.get("hsum"):
         # a property that depends on a field which is kept out of the key view
         L += ["    @property", "    @Field(dependencies=['hid'])", "    def hsum(self) -> int:",
@@ -194,6 +210,9 @@ def generate(rng, tier):
     plan["fin_final"] = rng.random() < 0.4
     plan["hsum"] = "hid" in fs and base == "schema" and rng.random() < 0.6
     plan["tt"] = "total" in fs and rng.random() < 0.5
+    plan["diamond"] = "total" in fs and rng.random() < 0.4
+    plan["ratio"] = "pos" in fs and base == "schema" and rng.random() < 0.35
+    plan["dbl"] = base == "schema" and rng.random() < 0.3
     # no field without a default (and no immutable one): clear() and popitem() can go all the way
     plan["noreq"] = "fin" not in fs and rng.random() < 0.35
     if "mreq" in fs:
@@ -342,7 +361,7 @@ def read_attr(inst, att):
     except AttributeError:
         return _MISSING
     except Exception:  # noqa  a property body computing over already-broken data; the broken field itself is reported
-        if att in ("total", "w", "w2", "hsum", "nkind", "tt"):
+        if att in ("total", "w", "w2", "hsum", "nkind", "tt", "tb", "td", "ratio", "dbl"):
             return _MISSING
         raise
 
@@ -356,7 +375,7 @@ class View:
         self.extra = {}
         is_schema = plan["base"] == "schema"
         names = {}
-        all_kinds = list(plan["fields"]) + (["w2"] if "w" in plan["fields"] else []) + (["hsum"] if plan.get("hsum") else []) + (["nkind"] if "num" in plan["fields"] else []) + (["tt"] if plan.get("tt") else [])
+        all_kinds = list(plan["fields"]) + (["w2"] if "w" in plan["fields"] else []) + (["hsum"] if plan.get("hsum") else []) + (["nkind"] if "num" in plan["fields"] else []) + (["tt"] if plan.get("tt") else []) + (["tb", "td"] if plan.get("diamond") else []) + (["ratio"] if plan.get("ratio") else []) + (["dbl"] if plan.get("dbl") else [])
         for k in all_kinds:
             names[FIELD_INFO[k]["name"]] = k
         if is_schema:
@@ -386,7 +405,7 @@ def check_invariants(plan, inst, initial, res, opname, field, current=True):
     v = View(plan, inst)
     fs = plan["fields"]
     is_schema = plan["base"] == "schema"
-    props = {"total", "w", "w2", "hsum", "nkind", "tt"}
+    props = {"total", "w", "w2", "hsum", "nkind", "tt", "tb", "td", "ratio", "dbl"}
     # I1 conformance of every present field, in both views
     for k, val in v.keys.items():
         if not conforms(k, val):
@@ -409,7 +428,7 @@ def check_invariants(plan, inst, initial, res, opname, field, current=True):
             out.append(("I3", "class", "instance of an immutable class changed"))
     # I4 key view and attribute view agree
     if is_schema:
-        for k in list(fs) + (["w2"] if "w" in fs else []) + (["hsum"] if plan.get("hsum") else []) + (["nkind"] if "num" in fs else []) + (["tt"] if plan.get("tt") else []):
+        for k in list(fs) + (["w2"] if "w" in fs else []) + (["hsum"] if plan.get("hsum") else []) + (["nkind"] if "num" in fs else []) + (["tt"] if plan.get("tt") else []) + (["tb", "td"] if plan.get("diamond") else []) + (["ratio"] if plan.get("ratio") else []) + (["dbl"] if plan.get("dbl") else []):
             if k == "hid":
                 if "hid" in v.keys:
                     out.append(("I4", k, "no_output field present in the key view"))
@@ -432,6 +451,18 @@ def check_invariants(plan, inst, initial, res, opname, field, current=True):
         want = v.keys["req"] * 10 + v.keys["pos"] + 1000
         if "tt" in v.keys and v.keys["tt"] != want:
             out.append(("I5", "tt", f"tt={v.keys['tt']!r} but req*10+pos+1000={want!r} (a property that depends on the property total)"))
+    if plan.get("ratio") and is_schema and "pos" in v.keys and conforms("pos", v.keys["pos"]):
+        if v.keys["pos"] == 0 and "ratio" in v.keys:
+            out.append(("I5", "ratio", f"ratio={v.keys['ratio']!r} is still there although it cannot be computed for pos=0 (an instance initialized with pos=0 has no ratio)"))
+        elif v.keys["pos"] != 0 and "ratio" in v.keys and v.keys["ratio"] != 100 // v.keys["pos"]:
+            out.append(("I5", "ratio", f"ratio={v.keys['ratio']!r} but 100//pos={100 // v.keys['pos']!r}"))
+    if plan.get("dbl") and is_schema and "req" in v.keys and conforms("req", v.keys["req"]):
+        if "dbl" in v.keys and v.keys["dbl"] != v.keys["req"] * 2:
+            out.append(("I5", "dbl", f"dbl={v.keys['dbl']!r} but req*2={v.keys['req'] * 2!r}"))
+    if plan.get("diamond") and is_schema and "req" in v.keys and "pos" in v.keys and conforms("req", v.keys["req"]) and conforms("pos", v.keys["pos"]):
+        want = (v.keys["req"] * 10 + v.keys["pos"]) * 100 + v.keys["req"] + 1
+        if "td" in v.keys and v.keys["td"] != want:
+            out.append(("I5", "td", f"td={v.keys['td']!r} but total*100+tb={want!r} (td depends on the properties total and tb, both depend on req)"))
     if "total" in fs and not is_schema:
         if "req" in v.keys and "pos" in v.keys and conforms("req", v.keys["req"]) and conforms("pos", v.keys["pos"]):
             want = v.keys["req"] * 10 + v.keys["pos"]
